@@ -4,4 +4,8 @@ go 1.17
 
 require github.com/makiuchi-d/gozxing v0.0.0
 
+require golang.org/x/xerrors v0.0.0-20200804184101-5ec99f83aff1 // indirect
+
 replace github.com/makiuchi-d/gozxing => /repo
+
+require golang.org/x/text v0.3.7
